@@ -52,6 +52,8 @@ type c08Entry struct {
 	NotStored map[string]string
 	// Version tag fields of entity wrappers: forced by the codec, excluded from generation.
 	Skip map[string]bool
+	// Fix restores an invariant of stored values on a generated value before it is encoded.
+	Fix func(root reflect.Value)
 }
 
 // ---------------------------------------------------------------------------------------------
@@ -683,6 +685,9 @@ func c08Check(e *c08Entry, x c08Codec, desc string, rank int64, col *c08Collecto
 	var b1, b1again, b2, rest []byte
 	var err error
 	var y c08Codec
+	if e.Fix != nil {
+		e.Fix(c08Root(e, x))
+	}
 	func() {
 		defer func() {
 			if p := recover(); p != nil {
